@@ -285,36 +285,42 @@ def suite_real_mp(ctx):
             ctx.case("real.proj_mp", (r, n, nprocs, kind, chunk), nontrivial=n > nprocs, sample={"input": inp})
             # swaths as they come: 2-D, any memory layout, with runs of missing geolocation (NaN / inf) long enough to fill whole work items
             if n >= 7:
-                rows_ = ctx.rng.choice([d_ for d_ in (1, 7, 11, 13, 77) if n % d_ == 0] or [1])
-                lo2, la2 = lons.copy(), lats.copy()
+                rows_ = ctx.rng.choice([2, 3, 5, 7])
+                cols_ = n // rows_
+                m_ = rows_ * cols_
+                lo2, la2 = lons[:m_].copy(), lats[:m_].copy()
                 for _ in range(ctx.rng.randint(1, 3)):
-                    a_ = ctx.rng.randrange(0, n)
-                    b_ = min(n, a_ + ctx.rng.choice([1, 3, n // 3 + 1, n // 2 + 1]))
+                    a_ = ctx.rng.randrange(0, m_)
+                    b_ = min(m_, a_ + ctx.rng.choice([1, 3, m_ // 3 + 1, m_ // 2 + 1]))
                     bad = ctx.rng.choice([np.nan, np.inf, 1e30])
                     lo2[a_:b_] = bad
                     if ctx.rng.random() < 0.7:
                         la2[a_:b_] = bad
                 if ctx.rng.random() < 0.3:
-                    lo2[: n - 2] = np.nan          # (nearly) everything missing
-                layout = ctx.rng.choice(["C", "F", "transposed-view", "strided"])
-                lo2, la2 = lo2.reshape(rows_, -1), la2.reshape(rows_, -1)
-                if layout == "F":
-                    lo2, la2 = np.asfortranarray(lo2), np.asfortranarray(la2)
-                elif layout == "transposed-view":
-                    lo2, la2 = np.ascontiguousarray(lo2.T).T, np.ascontiguousarray(la2.T).T
-                elif layout == "strided":
-                    lo2, la2 = np.repeat(lo2, 2, axis=1)[:, ::2], np.repeat(la2, 2, axis=1)[:, ::2]
-                inp2 = {**inp, "shape": list(lo2.shape), "layout": layout, "n_nonfinite": int((~np.isfinite(lo2) | ~np.isfinite(la2)).sum())}
+                    lo2[: m_ - 2] = np.nan          # (nearly) everything missing
+                lo2, la2 = lo2.reshape(rows_, cols_), la2.reshape(rows_, cols_)
                 with warnings.catch_warnings():
                     warnings.simplefilter("ignore")
-                    x, y = Proj_MP(**proj_def)(lo2, la2, nprocs=nprocs, chunk=chunk, schedule=kind)
-                    x1, y1 = tr.transform(np.ascontiguousarray(lo2), np.ascontiguousarray(la2))
-                ctx.count(f"real.proj_mp.layout.{layout}")
-                ctx.case("real.proj_mp.2d", (r, n, nprocs, kind, chunk, layout, inp2["n_nonfinite"]), nontrivial=True, sample={"input": inp2})
-                if x.shape != lo2.shape or not (np.array_equal(x, x1, equal_nan=True) and np.array_equal(y, y1, equal_nan=True)):
-                    nd = int((~((x == x1) | (np.isnan(x) & np.isnan(x1)))).sum()) if x.shape == x1.shape else -1
-                    ctx.fail("Proj_MP.__call__", f"{layout} {lo2.shape} input with {inp2['n_nonfinite']} points without geolocation: multi-process projection differs from the "
-                             f"single-process one at {nd} points", inp2, {"ndiff": nd}, tags={"cause": "layout-or-missing"}, size=n)
+                    x1, y1 = tr.transform(lo2.copy(), la2.copy())
+                for layout in ("C", "F", "transposed-view", "strided"):
+                    if layout == "F":
+                        lo3, la3 = np.asfortranarray(lo2), np.asfortranarray(la2)
+                    elif layout == "transposed-view":
+                        lo3, la3 = np.ascontiguousarray(lo2.T).T, np.ascontiguousarray(la2.T).T
+                    elif layout == "strided":
+                        lo3, la3 = np.repeat(lo2, 2, axis=1)[:, ::2], np.repeat(la2, 2, axis=1)[:, ::2]
+                    else:
+                        lo3, la3 = lo2.copy(), la2.copy()
+                    inp2 = {**inp, "shape": [rows_, cols_], "layout": layout, "n_nonfinite": int((~np.isfinite(lo2) | ~np.isfinite(la2)).sum())}
+                    with warnings.catch_warnings():
+                        warnings.simplefilter("ignore")
+                        x, y = Proj_MP(**proj_def)(lo3, la3, nprocs=nprocs, chunk=chunk, schedule=kind)
+                    ctx.count(f"real.proj_mp.layout.{layout}")
+                    ctx.case("real.proj_mp.2d", (r, n, nprocs, kind, chunk, layout, inp2["n_nonfinite"]), nontrivial=True, sample={"input": inp2})
+                    if x.shape != lo2.shape or not (np.array_equal(x, x1, equal_nan=True) and np.array_equal(y, y1, equal_nan=True)):
+                        nd = int((~((x == x1) | (np.isnan(x) & np.isnan(x1)))).sum() + (~((y == y1) | (np.isnan(y) & np.isnan(y1)))).sum()) if x.shape == x1.shape else -1
+                        ctx.fail("Proj_MP.__call__", f"{layout} {lo2.shape} input with {inp2['n_nonfinite']} points without geolocation: multi-process projection differs from the "
+                                 f"single-process one at {nd} coordinates", inp2, {"ndiff": nd}, tags={"cause": "layout-or-missing"}, size=n)
             if n > 0:
                 k = ctx.rng.choice([1, 3])
                 data = np.array([[ctx.rng.uniform(-1, 1) for _ in range(3)] for _ in range(50)])
